@@ -178,9 +178,11 @@ class C20(Check):
               "bounds, y0, copy flag) under the same name",
         "L6": "one name order per minimiser: the start vector x0, the bounds list, the names that label a candidate vector for the residual and the "
               "names that label the optimiser's answer all enumerate the start dictionary in the same order",
+        "L7": "joint fits: every entry's residual is computed from its own data and with its own y0 / integrator / loss function where the entry brings "
+              "one, otherwise with the routine's",
         "L4": "standard scaling applies one and the same affine map (x - mean(data)) / std(data) to data and prediction",
     }
-    floors = {"L1": 7, "L2": 10, "L3": 9, "L4": 2, "L5": 12, "L6": 5}
+    floors = {"L1": 7, "L2": 10, "L3": 9, "L4": 2, "L5": 12, "L6": 5, "L7": 3}
     decided = [
         "which shipped losses are proper discrepancy measures (>= 0, 0 at equality) and which provably are not",
         "with copying enabled (the default) no fit routine hands the caller's model to the optimiser loop",
@@ -196,6 +198,45 @@ class C20(Check):
         self.l4()
         self.l5()
         self.l6()
+        self.l7()
+
+    def l7(self) -> None:
+        """Joint fits: every entry is fitted with its own data and its own y0 / integrator / loss where it brings one, else the routine's."""
+        mod = self.prog.module(ROUT)
+        n = 0
+        for name, f in mod.functions.items():
+            if "." in name or not name.startswith("joint_"):
+                continue
+            loops = [l for l in ast.walk(f) if isinstance(l, ast.For) and isinstance(l.target, ast.Name) and norm(l.iter) == "to_fit"]
+            calls = [c for l in loops for c in ast.walk(l) if isinstance(c, ast.Call) and norm(c.func).endswith("_Settings")]
+            if not calls:
+                continue
+            n += 1
+            it_ = loops[0].target.id
+            for c in calls:
+                kw = {k.arg: k.value for k in c.keywords}
+                probs = []
+                if norm(kw.get("data")) != f"{it_}.data":
+                    probs.append(f"data={norm(kw.get('data'))} is not the entry's own data")
+                for fld in ("y0", "integrator", "loss_fn"):
+                    if fld not in [a.arg for a in f.args.args + f.args.kwonlyargs]:
+                        continue
+                    v = kw.get(fld)
+                    ok = False
+                    if isinstance(v, ast.IfExp) and isinstance(v.test, ast.Compare) and len(v.test.ops) == 1 and norm(v.test.left) == f"{it_}.{fld}" \
+                            and isinstance(v.test.comparators[0], ast.Constant) and v.test.comparators[0].value is None:
+                        own, other = (v.body, v.orelse) if isinstance(v.test.ops[0], ast.IsNot) else (v.orelse, v.body) if isinstance(v.test.ops[0], ast.Is) else (None, None)
+                        ok = own is not None and norm(own) == f"{it_}.{fld}" and norm(other) == fld
+                    elif isinstance(v, ast.BoolOp) and isinstance(v.op, ast.Or) and [norm(x) for x in v.values] == [f"{it_}.{fld}", fld]:
+                        ok = True
+                    if not ok:
+                        probs.append(f"{fld}=`{norm(v)[:60]}` is not the entry's own {fld} where it has one, else the routine's")
+                if probs:
+                    self.violated("L7", ROUT, name, "entry-overrides", c, "; ".join(probs),
+                                  witness=f"fit.{name}(..., to_fit=[entry with loss_fn=losses.mae], loss_fn=losses.rmse) minimises the rmse of that entry (or calls None)")
+                else:
+                    self.holds("L7", ROUT, name, "entry-overrides", c, "each entry's data, and its own y0 / integrator / loss where given, reach its residual settings")
+        self.analysed["joint_routines_checked"] = n
 
     def l6(self) -> None:
         from ..core import expand_locals, single_defs
